@@ -351,3 +351,176 @@ Proof.
     + eapply ext_trans; eauto.
     + rewrite <- D5. eapply root_of_ext; eauto.
 Qed.
+
+Definition extended (s : store) (c : cid) (s' : store) (n : cid) : Prop :=
+  n = size s /\ size s < size s' /\ inv s' /\ ext (size s) s s' /\ root_of s' n = root_of s c.
+
+Lemma derived_extended : forall s c s' n, inv s -> derived s c s' n -> extended s c s' n.
+Proof.
+  unfold derived, extended. intros s c s' n I [A [B [C [D E]]]].
+  split; [exact A | split; [lia | split; [exact (D I) | split; [exact C | exact E]]]].
+Qed.
+
+(** * customize() as the user calls it *)
+Lemma customize_ok : forall s c kw ca caa ne s' n,
+  inv s -> customize s c kw ca caa ne = ROk (s', n) -> extended s c s' n.
+Proof.
+  unfold customize. intros s c kw ca caa ne s' n I H.
+  destruct (lookup s c) as [r |] eqn:L; try discriminate.
+  destruct (c_kind r) eqn:K.
+  - destruct ca; try discriminate. destruct caa; try discriminate. destruct ne; try discriminate.
+    apply derived_extended; auto. eapply customize_simple_derived; eauto.
+  - destruct (noexc_pre ca caa ne) as [ca' caa']. eapply customize_complex_ok; eauto.
+  - destruct (noexc_pre ca caa ne) as [ca' caa']. eapply customize_complex_ok; eauto.
+Qed.
+
+(** * Array(serializer, **kw) / Iterable(...) *)
+Lemma make_array_ok : forall s base t kw s' n,
+  inv s -> make_array s base t kw = ROk (s', n) -> extended s base s' n.
+Proof.
+  unfold make_array. intros s base t kw s' n I H.
+  destruct (lookup s base) as [rb |] eqn:Lb; try discriminate.
+  destruct (lookup s t) as [rt |] eqn:Lt; try discriminate.
+  destruct (c_kind rb); try discriminate.
+  destruct (c_fields rb); try discriminate.
+  destruct (c_orig rb); try discriminate.
+  rdesp H as s1 a Q1.
+  pose proof (customize_plain_derived _ _ _ _ _ Q1) as D.
+  destruct D as [D1 [D2 [D3 [D4 D5]]]]. subst a. pose proof (D4 I) as I1.
+  pose proof (size_nonneg s) as NN. pose proof (lookup_some _ _ _ Lt) as Bt.
+  destruct (get_tname s1 t) as [tnm |]; try discriminate.
+  destruct (match tnm with TEmpty => (t_OhNoes, TEmpty) | TStr x => (x, TStr (x ++ t_Array)) end)
+    as [member atn].
+  rdesp H as s2 ser Q2. inversion H; subst. clear H.
+  assert (P : inv s2 /\ ext (size s) s1 s2 /\ ref_ok (size s2) ser /\ size s1 <= size s2).
+  { destruct (is_v (resolve s1 t K_MAX_OCCURS) (VInt 1)).
+    - pose proof (customize_any_derived _ _ _ _ _ Q2) as D.
+      pose proof (derived_valid _ _ _ _ D) as V. destruct D as [E1 [E2 [E3 [E4 E5]]]].
+      split; [exact (E4 I1) | split; [eapply ext_weaken; [| apply E3]; lia | split; [exact V | lia]]].
+    - inversion Q2; subst.
+      split; [exact I1 | split; [apply ext_refl | split; [unfold ref_ok; lia | lia]]]. }
+  destruct P as [I2 [X2 [V2 Z2]]].
+  set (f := fun r : cls => set_tname
+              match zassoc K_TYPE_NAME kw with Some (VStr x) => TStr x | _ => atn end
+              (set_fields [(member, ser)] r)).
+  assert (SF : forall r, static_eq r (f r)) by (intros; unfold f, static_eq; simpl; auto).
+  assert (L1 : exists r1, lookup s1 (size s) = Some r1) by (apply lookup_lt_some; lia).
+  destruct L1 as [r1 L1].
+  unfold extended. split; auto. split; [rewrite size_upd; lia |]. split; [| split].
+  - apply inv_upd; auto. intros r K. unfold f. apply cls_ok_set_tname.
+    apply cls_ok_set_fields; auto.
+    + intros k t0 [X | []]. inversion X; subst. auto.
+    + simpl. constructor; auto. constructor.
+  - eapply ext_trans; [apply D3 |]. eapply ext_trans; [apply X2 |].
+    apply ext_upd; auto. lia.
+  - rewrite <- D5.
+    assert (X3 : ext (size s) s1 (upd s2 (size s) f)).
+    { eapply ext_trans; [apply X2 |]. apply ext_upd; auto. lia. }
+    eapply root_of_ext; eauto.
+Qed.
+
+(** * Mandatory(cls) *)
+Lemma mandatory_ok : forall fuel s c s' n,
+  inv s -> mandatory fuel s c = ROk (s', n) -> extended s c s' n.
+Proof.
+  induction fuel; intros s c s' n I H; [discriminate |].
+  simpl in H.
+  destruct (lookup s c) as [r |] eqn:L; try discriminate.
+  destruct (get_tname s c) as [tnm |]; try discriminate.
+  pose proof (size_nonneg s) as NN.
+  destruct (c_kind r) as [fam | |].
+  - apply derived_extended; auto. destruct fam; eapply customize_simple_derived; eauto.
+  - apply derived_extended; auto. eapply customize_plain_derived; eauto.
+  - destruct (c_fields r) as [| [k v] rest]; try discriminate.
+    destruct rest; try discriminate.
+    destruct (is_v (resolve s v K_MIN_OCCURS) (VInt 0)).
+    + rdesp H as s1 n1 Q1. rdesp H as s2 v' Q2. inversion H; subst. clear H.
+      pose proof (customize_plain_derived _ _ _ _ _ Q1) as D.
+      destruct D as [D1 [D2 [D3 [D4 D5]]]]. subst n. pose proof (D4 I) as I1.
+      destruct (IHfuel _ _ _ _ I1 Q2) as [A1 [A2 [A3 [A4 A5]]]]. subst v'.
+      destruct (upd_field_ok s2 (size s) k (size s1) (size s) A3) as [I3 X3].
+      { unfold ref_ok. pose proof (size_nonneg s1). lia. }
+      { lia. }
+      assert (L1 : exists r1, lookup s1 (size s) = Some r1) by (apply lookup_lt_some; lia).
+      destruct L1 as [r1 L1].
+      assert (X13 : ext (size s) s1 (upd s2 (size s)
+                      (fun x => set_fields (od_set k (size s1) (c_fields x)) x))).
+      { eapply ext_trans; [eapply ext_weaken; [| apply A4]; lia | apply X3]. }
+      unfold extended. split; auto. split; [rewrite size_upd; lia |]. split; auto. split.
+      * eapply ext_trans; [apply D3 | apply X13].
+      * rewrite <- D5. eapply root_of_ext; eauto.
+    + apply derived_extended; auto. eapply customize_plain_derived; eauto.
+Qed.
+
+(** * the class statement *)
+Lemma all_valid_In : forall s fs k t,
+  all_valid s fs = true -> In (k, t) fs -> exists rt, lookup s t = Some rt.
+Proof.
+  induction fs as [| [k0 t0] fs IH]; simpl; intros k t H HI; try contradiction.
+  destruct (lookup s t0) as [rt |] eqn:L; try discriminate.
+  apply andb_true_iff in H. destruct H as [_ H].
+  destruct HI as [X | X].
+  - inversion X; subst. eauto.
+  - eapply IH; eauto.
+Qed.
+
+Lemma subclass_shape : forall s parent name fs s' n,
+  subclass s parent name fs = ROk (s', n) ->
+  exists rp ex,
+    lookup s parent = Some rp /\ c_kind rp = KComplex /\ c_orig rp = None /\
+    all_valid s fs = true /\ distinct_keys fs = true /\
+    (ex = None \/ ex = Some (Some parent)) /\
+    (ex = None <-> c_fields rp = []) /\
+    n = size s /\
+    s' = fst (alloc s (mkcls KComplex (Some parent) [] (Some (TStr name)) None ex (od_update [] fs))).
+Proof.
+  unfold subclass. intros.
+  destruct (lookup s parent) as [rp |] eqn:L; try discriminate.
+  destruct (c_kind rp) eqn:K; try discriminate.
+  destruct (all_valid s fs && distinct_keys fs) eqn:V; simpl in H; try discriminate.
+  apply andb_true_iff in V. destruct V as [V1 V2].
+  destruct (c_orig rp) eqn:O.
+  - destruct (c_fields rp); discriminate.
+  - exists rp. exists (match c_fields rp with [] => None | _ => Some (Some parent) end).
+    split; [reflexivity |]. split; [exact K |]. split; [exact O |].
+    split; [exact V1 |]. split; [exact V2 |].
+    split; [destruct (c_fields rp); auto |].
+    split; [destruct (c_fields rp); split; intros; auto; discriminate |].
+    inversion H. auto.
+Qed.
+
+Lemma subclass_ok : forall s parent name fs s' n,
+  inv s -> subclass s parent name fs = ROk (s', n) ->
+  n = size s /\ size s < size s' /\ inv s' /\ ext (size s) s s'.
+Proof.
+  intros s parent name fs s' n I H.
+  destruct (subclass_shape _ _ _ _ _ _ H) as [rp [ex [L [K [O [V1 [V2 [X [_ [N S']]]]]]]]]].
+  subst. split; auto. split; [rewrite size_alloc; lia |]. split; [| apply ext_alloc].
+  apply inv_alloc; [exact I | | right; left; reflexivity].
+  - pose proof (lookup_some _ _ _ L). unfold cls_ok. simpl.
+    split; [| split; [| split; [| split]]]; intros.
+    + inversion H1; subst. auto.
+    + discriminate.
+    + destruct X; subst; try discriminate. inversion H1; subst. auto.
+    + apply In_od_update in H1. destruct H1 as [[] | H1].
+      destruct (all_valid_In _ _ _ _ V1 H1) as [rt Lt]. eapply lookup_some; eauto.
+    + apply NoDup_od_update. constructor.
+Qed.
+
+Local Opaque FUEL.
+
+(** * one derivation step *)
+Lemma step_derivation_ok : forall s o s' res,
+  inv s -> is_derivation o = true -> step s o = ROk (s', res) ->
+  res = Some (size s) /\ size s < size s' /\ inv s' /\ ext (size s) s s'.
+Proof.
+  intros s o s' res I D H. destruct o; simpl in *; try discriminate.
+  - rdesp H as s1 n Q. inversion H; subst.
+    destruct (customize_ok _ _ _ _ _ _ _ _ I Q) as [A [B [C [E _]]]]. subst. auto.
+  - rdesp H as s1 n Q. inversion H; subst.
+    destruct (make_array_ok _ _ _ _ _ _ I Q) as [A [B [C [E _]]]]. subst. auto.
+  - rdesp H as s1 n Q. inversion H; subst.
+    destruct (mandatory_ok _ _ _ _ _ I Q) as [A [B [C [E _]]]]. subst. auto.
+  - rdesp H as s1 n Q. inversion H; subst.
+    destruct (subclass_ok _ _ _ _ _ _ I Q) as [A [B [C E]]]. subst. auto.
+Qed.
